@@ -74,3 +74,44 @@ pub fn panic_key(msg: &str) -> String {
     let class: String = class.chars().take(60).collect();
     format!("{}|{}", file, class.replace(' ', "_"))
 }
+
+/// Progress watchdog for replay / record loops. allsorts must return from every call; a call that never returns
+/// would otherwise end as a time-out of the driver (a tool error) instead of a finding. Call `enter` right before
+/// each call into allsorts with a description of the input; when no `enter` (or `done`) happens for `limit_secs`
+/// seconds the description of the call in progress is written to `hang_path` and the process exits with status 3.
+pub struct Watchdog {
+    state: std::sync::Arc<std::sync::Mutex<(std::time::Instant, String, bool)>>,
+}
+
+impl Watchdog {
+    pub fn start(hang_path: &str, limit_secs: u64) -> Watchdog {
+        let _ = std::fs::remove_file(hang_path);
+        let state = std::sync::Arc::new(std::sync::Mutex::new((std::time::Instant::now(), String::new(), false)));
+        let st = state.clone();
+        let path = hang_path.to_string();
+        std::thread::spawn(move || loop {
+            std::thread::sleep(std::time::Duration::from_secs(1));
+            let (stuck, desc) = {
+                let g = st.lock().unwrap();
+                (g.2 && g.0.elapsed().as_secs() >= limit_secs, g.1.clone())
+            };
+            if stuck {
+                let _ = std::fs::write(&path, format!("{}\n", desc));
+                std::process::exit(3);
+            }
+        });
+        Watchdog { state }
+    }
+
+    /// A call into allsorts is about to start.
+    pub fn enter(&self, desc: String) {
+        let mut g = self.state.lock().unwrap();
+        *g = (std::time::Instant::now(), desc, true);
+    }
+
+    /// The loop is over (what follows is the harness' own work).
+    pub fn done(&self) {
+        let mut g = self.state.lock().unwrap();
+        g.2 = false;
+    }
+}
